@@ -246,7 +246,8 @@ def run_generator_crosscheck(rp, tier, rng, cases):
 
 # ------------------------------------------------------------------------------------------------
 
-THEOREMS = []   # filled in when Props/C03.v exists
+THEOREMS = ["Props.C03.C03_parse_render_expr_partial", "Props.C03.C03_refuted_cmp_rhs_primary",
+            "Props.C03.C03_refuted_like_primary"]
 
 
 def run(tier):
@@ -256,11 +257,20 @@ def run(tier):
     try:
         with common.Lock():
             common.stage_harness()
-            ok_make, log_make = common.coq_make(["theories/Model/ExprParse.vo"])
-            if not ok_make:
-                raise common.StageError("coq-model", log_make[-2000:])
+            ok_inst, ok_props, _, logs = common.coq_stage(rp, ["theories/Proofs/ExprParseP.vo"], "theories/Props/C03.v", THEOREMS)
+            if not ok_inst:
+                # the model itself must still build for the correspondence
+                ok_make, log_make = common.coq_make(["theories/Model/ExprParse.vo"])
+                if not ok_make:
+                    raise common.StageError("coq-model", log_make[-2000:])
     except common.StageError as e:
         return common.stage_fail(rp, e)
+    if not (ok_inst and ok_props):
+        rp.violation({"kind": "proof", "theorem": "Proofs/ExprParseP.v / Props/C03.v", "log": (logs["inst"] + logs["props"])[-3000:]},
+                     "props_c03", no_input=True)
+    rp.assumptions = ["lexing (text -> tokens) is C04's theorem; per run the real tokenizer+converter output is compared with the renderer's token list",
+                      "theorem covers the sub-surface `proved` (see Props/C03.v); omitted productions and the statement level are covered by correspondence and the prescribed-tree oracle only",
+                      "model case folding is ASCII-only (Go uses Unicode simple folding for EqualFold/ToUpper on keyword-like literals)"]
     try:
         cases, viol, tokbad = run_expressions(rp, tier, rng, kf)
         items, corr_bad, depth_bad = run_correspondence(rp, tier, rng, cases)
